@@ -500,11 +500,11 @@ func (th *Thread) indexAddr(x Value, idx *Term) Value {
 	switch xv := x.(type) {
 	case Slice:
 		i := th.concreteIndex(idx, "index")
-		if i < 0 || i >= len(xv.a) {
-			th.runtimePanic("index out of range", "index out of range [%d] with length %d", i, len(xv.a))
-		}
 		if hasWide(xv.a) {
 			return th.ropeIndexAddr(xv.a, i)
+		}
+		if i < 0 || i >= len(xv.a) {
+			th.runtimePanic("index out of range", "index out of range [%d] with length %d", i, len(xv.a))
 		}
 		return &xv.a[i]
 	case *Value:
@@ -707,7 +707,7 @@ func (th *Thread) iterNext(it *MapIter, instr *ssa.Next) Value {
 		}
 	}
 	pick := 0
-	if len(cand) > 1 && th.st.eng.cfg.MapOrders {
+	if len(cand) > 1 && th.st.eng.cfg.MapOrders && !th.st.mapOrdersOff {
 		pick = th.st.choose(len(cand), nil, "map-order")
 	}
 	i := cand[pick]
